@@ -131,7 +131,8 @@ PROPS["C18"] = {"module": "ScpiVerif.Props.C18", "domains": [{"name": "errstr", 
     "rule": "cases = (heap size, rotation, code, text); every code -1000..1000 (stride 3 in quick), 14 codes x text lengths 0..300 x 40 quote placements around the 255-character cut, random texts up to 420 characters; in the static-heap build the text is made to wrap around the heap end; judged by an independent reader of the response string and Spec/ErrorString.lean; non-trivial = a text is present"}
 PROPS["C19"] = {"module": "ScpiVerif.Props.C19", "domains": [{"name": "expr", "cfgs": ["A"]}], "clauses": ["C19."], "level": "proof",
     "trusted_base": [KERNEL, CORR, PLATFORM, "Spec/ExprList.lean: list grammar over the decimal token specification"],
-    "assumptions": ["Model/Expr.lean transcribes expression.c; integer values are strtol of the token text (Model/Prim.lean)"],
+    "assumptions": ["Model/Expr.lean transcribes expression.c; integer values are strtol of the token text (Model/Prim.lean)",
+                    "double values (SCPI_ExprNumericListEntryDouble): the text handed to strtod is Expr.tokDoubleText (Prim.strtodLen, the syntax of strtod); that strtod rounds it correctly is trusted and compared bit-exactly with Spec/Float.lean on every case"],
     "rule": "cases = (expression body, index, capacity); every body up to length 5 (quick) / 6 (thorough) over {1,7,-,.,:,',',!,@,space,a}, grammar-generated lists of up to 8 entries and 5 dimensions with occasional damage, indices 0..9, capacities 0..4, canaries after the value arrays; non-trivial = non-empty body"}
 PROPS["C15"] = {"module": "ScpiVerif.Props.C15", "domains": [{"name": "buffmt", "cfgs": ["A", "D"]}, {"name": "intfmt", "cfgs": ["A"]}], "clauses": ["C15.", "C14.write_beyond_buffer", "C14.nul_terminator", "C14.return_value"], "level": "proof",
     "trusted_base": [KERNEL, CORR + " (exact-size heap buffers under ASan)", PLATFORM, "snprintf / strncpy / strncat / strnlen by their C specifications"],
@@ -187,8 +188,8 @@ for _k in ("C02", "C06", "C08", "C09", "C05", "C01", "C04", "C17", "C18", "C19",
 _T["C18"] = ("Theorems resultError_one_part / resultError_two_parts: for every 16-bit code, every description and every NUL-free text of any length and content, in the one-part (malloc) and two-part (static heap, wrapped) layouts, the model of SCPI_ResultError writes exactly response(code, description, text) of Spec/ErrorString.lean; response_shape: that response is the code, a comma and one 488.2 string whose unescaped content is the longest prefix of description;text that fits 255 escaped characters; escape_injective; description_total over the generated error list.",
             "Lean kernel + standard axioms; translator for LIST_OF_ERRORS and the 255 limit; model tied to parser.c/error.c by differential testing in three configurations (texts wrapped around the heap end included) and an independent reader of the response",
             "Lean 4 theorem (loop invariant on the remaining budget) + differential correspondence")
-_T["C19"] = ("Theorems numeric_entry / channel_entry: for every well-formed numeric list (a,b:c,...) or channel list (@a!b:c!d,...) of Spec/ExprList.lean and every index, the model of the entry walkers returns OK with exactly the written number or range (token text and 32-bit integer value), the dimension count and the values up to the caller's capacity, and NO_MORE at or beyond the number of entries; for ANY content: stores_bounded (never more values than the capacity), numeric_ok_implies_prefix_wf, channel_error_pushes (-170 exactly on ERROR).",
-            "Lean kernel + standard axioms; list grammar over the decimal token specification of C13; integer values are strtol of the token text (Model/Prim.lean, libc specification); model tied to expression.c by exhaustive short bodies and generated lists",
+_T["C19"] = ("Theorems numeric_entry / channel_entry: for every well-formed numeric list (a,b:c,...) or channel list (@a!b:c!d,...) of Spec/ExprList.lean and every index, the model of the entry walkers returns OK with exactly the written number or range (token text and 32-bit integer value), the dimension count and the values up to the caller's capacity, and NO_MORE at or beyond the number of entries; for ANY content: stores_bounded (never more values than the capacity), numeric_ok_implies_prefix_wf, channel_error_pushes (-170 exactly on ERROR). Double-valued variant: numeric_entry_double - for every entry of a well-formed numeric list the text handed to strtod is exactly the written number whenever it has no inner white space (the hexadecimal-constant side condition of C04 is discharged by numeric_list_bytes), and the number has a value in Spec/Float.lean; numeric_entry_double_counterexample: '1 e2' converts as '1' - C04's defect inside a list, recorded as known finding C19.whitespace_in_literal (the judge names that clause exactly when everything but the double of a number containing white space is as written); numeric_entry_double_malformed_hexfloat: for the malformed content '0x1' entry 0 is OK with token '0' and strtod sees a hexadecimal constant.",
+            "Lean kernel + standard axioms; list grammar over the decimal token specification of C13; integer values are strtol of the token text, double values strtod of the text Prim.strtodLen delimits (Model/Prim.lean, libc specification; correct rounding trusted and compared bit-exactly); model tied to expression.c by exhaustive short bodies and generated lists",
             "Lean 4 theorems (entry walkers = list grammar) + differential correspondence")
 _T["C06"] = ("Theorem framing: for every context (any table, any scripts, any state left by earlier messages) and every message, the bytes written while SCPI_Parse runs are exactly frame(items of its units): response units separated by single ';', items by single ',', one line terminator and one flush iff at least one unit responded, nothing otherwise (silent_message); the item record is tied to the writers by item_of_int / item_of_text / item_of_block. Hypothesis gPartial = false excludes misuse of the streaming block API (unfinished block, item started inside a block, data without header).",
             "Lean kernel + standard axioms; ghost item bookkeeping in the model (proved not to influence the real fields); context model tied to parser.c by scripted differential testing, output judged byte-exactly against frame() over independently encoded items",
